@@ -340,7 +340,7 @@ fn c20_synthetic(c: &mut Case) -> Result<(), String> {
     let nn = c.rng.below(6);
     let want_long = c.idx % 500 == 7 && !c.lane_miri;
     for i in 0..nn {
-        let len = k + if want_long && i == 0 { *c.rng.pick(&[65_530usize, 70_000, 131_100, 150_000]) } else { *c.rng.pick(&[0usize, 0, 1, 2, 7, 300]) };
+        let len = k + if want_long && i == 0 { *c.rng.pick(&[65_530usize, 70_000, 131_100, 150_000, 262_200, 524_300, 600_000, 800_000, 1_048_600]) } else { *c.rng.pick(&[0usize, 0, 1, 2, 7, 300]) };
         let s = c.rng.bases(len, 4);
         let ws: Vec<S> = s.windows(k).map(|w| canon_s(w, stranded)).collect();
         if ws.iter().any(|w| seen.contains(w)) || ws.iter().collect::<BTreeSet<_>>().len() != ws.len() {
@@ -356,6 +356,7 @@ fn c20_synthetic(c: &mut Case) -> Result<(), String> {
     let f = export_checks(c, &g, "hand-built graph with dangling extensions")?;
     c.count("synthetic_graphs", 1);
     c.count("graphs_with_node_longer_than_65536", f.seqs.iter().any(|s| s.len() > 65_536) as u64);
+    c.count("graphs_with_node_longer_than_524288", f.seqs.iter().any(|s| s.len() > 524_288) as u64);
     c.count("adjacencies", f.links.len() as u64);
     let dangling = (0..g.len()).any(|i| {
         let n = g.get_node(i);
@@ -397,6 +398,7 @@ pub fn run_c20(ctx: &Ctx) {
         ctx.require("single_node_graphs", 20);
         ctx.require("graphs_with_dangling_right_extensions", 50);
         ctx.require("graphs_with_node_longer_than_65536", 10);
+        ctx.require("graphs_with_node_longer_than_524288", 3);
         ctx.require("graph_round_trips", 1000);
     }
 }
